@@ -60,6 +60,32 @@ class SxMath:
         return _math.log10(x)
 
     @staticmethod
+    def hypot(*xs):
+        if any(is_sym(x) for x in xs):
+            tot = 0
+            for x in xs:
+                tot = tot + x * x
+            return core.ssqrt(tot)
+        return _math.hypot(*xs)
+
+    @staticmethod
+    def copysign(a, b):
+        if is_sym(a) or is_sym(b):
+            mag = abs(a)
+            if is_sym(b):
+                # the sign of a symbolic real (a symbolic -0.0 does not exist in the exact-real model)
+                return SReal(z3.If(lift_real(b) >= 0, lift_real(mag), -lift_real(mag)))
+            return mag if _math.copysign(1.0, b) > 0 else -mag
+        return _math.copysign(a, b)
+
+    @staticmethod
+    def atan2(y, x):
+        if is_sym(y) or is_sym(x):
+            r = core.ssqrt(x * x + y * y)
+            return SAngle(y / r, x / r)
+        return _math.atan2(y, x)
+
+    @staticmethod
     def fabs(x):
         if is_sym(x):
             r = abs(x)
